@@ -618,6 +618,21 @@ func c17Carried(c *Ctx, r *Report, f *ssa.Function, l *natLoop, id, inScope stri
 			continue // a map made afresh for each entry carries nothing over
 		}
 		for _, lk := range lks[m] {
+			// test-and-set: the entry that is looked up is itself recorded in the same
+			// iteration (the update is reachable from the lookup without taking the back
+			// edge, or precedes it). A loop in which some entries only record and others
+			// only look up finds a match in one order and not in the other.
+			sameIter := false
+			for _, u := range us {
+				if reachesWithout(lk.Block(), u.Block(), map[*ssa.BasicBlock]bool{l.header: true}) || reachesWithout(u.Block(), lk.Block(), map[*ssa.BasicBlock]bool{l.header: true}) {
+					sameIter = true
+				}
+			}
+			if !sameIter {
+				bad++
+				r.Bad("carried-state", id+"|seen-set-asymmetric|"+apath(m), lk.Pos(), fmt.Sprintf("inside the loop over %s the map %s is filled by some entries and consulted by others (no iteration does both): whether an entry finds a match depends on whether the matching entry came before it — re-ordering the entries changes the result", inScope, apath(m)))
+				continue
+			}
 			for _, u := range us {
 				if lk.Index == u.Key || apath(lk.Index) == apath(u.Key) {
 					continue
